@@ -57,7 +57,8 @@ package queueing
 // only records still at stage 0 can have dwell cycles left (AcceptWithDelay sets them at stage 0; a record advances only with CycleLeft == 0)
 //@ pred dwellOK(p) = forall i in 0..len(p.stages) :: p.stages[i].Stage > 0 ==> p.stages[i].CycleLeft == 0
 //@ pred laneFree0(p, l) = forall i in 0..len(p.stages) :: !(p.stages[i].Stage == 0 && p.stages[i].Lane == l)
-//@ pred hasFreeLane(p) = exists l in 0..p.width :: laneFree0(p, l)
+// (idperm[l] == l is a tautology: it gives the solvers a trigger for the witness lane)
+//@ pred hasFreeLane(p) = exists l in 0..p.width :: idperm[l] == l && laneFree0(p, l)
 
 // CanAccept counts the stage-0 records. Pigeonhole without induction: the ghost pair (gat, gpos) is a permutation of
 // the lanes 0..width-1 that keeps the lanes used so far in positions 0..occupied-1, so gat[occupied] is a free lane.
@@ -71,7 +72,7 @@ package queueing
 //@   label C15.canaccept.full
 //@   ensures !result ==> (forall l in 0..p.width :: 0 <= own[l] && own[l] < len(p.stages) && p.stages[own[l]].Stage == 0 && p.stages[own[l]].Lane == l)
 //@   label C15.canaccept.iff.fwd
-//@   ensures result ==> hasFreeLane(p)
+//@   ensures result ==> idperm[fl] == fl && hasFreeLane(p)
 //@   label C15.canaccept.iff.bwd
 //@   ensures hasFreeLane(p) ==> result
 //@   assigns nothing
@@ -87,5 +88,141 @@ package queueing
 //@   loop 0: invariant forall k in rangeindex + 1..len(p.stages) :: p.stages[k].Stage == 0 ==> gpos[p.stages[k].Lane] >= occupied
 //@   loop 0: invariant forall l in 0..p.width :: 0 <= gpos[l] && gpos[l] < p.width && gat[gpos[l]] == l
 //@   loop 0: invariant forall q in 0..p.width :: 0 <= gat[q] && gat[q] < p.width && gpos[gat[q]] == q
-//@   loop 0: invariant forall l in 0..p.width :: gpos[l] < occupied ==> 0 <= gown[l] && gown[l] <= rangeindex && p.stages[gown[l]].Stage == 0 && p.stages[gown[l]].Lane == l
+//@   loop 0: invariant forall l in 0..p.width :: idperm[l] == l && gpos[l] < occupied ==> 0 <= gown[l] && gown[l] <= rangeindex && p.stages[gown[l]].Stage == 0 && p.stages[gown[l]].Lane == l
 //@   loop 0: invariant forall k in 0..rangeindex + 1 :: p.stages[k].Stage == 0 ==> gpos[p.stages[k].Lane] < occupied
+
+// Accept appends one record (first free lane at stage 0, stage 0, no dwell); everything else is unchanged.
+//@ fn (*Pipeline[T]).Accept
+//@   property C15
+//@   requires pipeWF(p) && hasFreeLane(p)
+//@   witness own map = gown
+//@   label C15.accept.len
+//@   ensures len(p.stages) == old(len(p.stages)) + 1
+//@   label C15.accept.ref
+//@   ensures ref(p.stages) != 0 && (ref(p.stages) == old(ref(p.stages)) || fresh(p.stages))
+//@   label C15.accept.prefix
+//@   ensures forall i in 0..old(len(p.stages)) :: p.stages[i] == old(p.stages[i])
+//@   label C15.accept.record
+//@   ensures p.stages[old(len(p.stages))].Stage == 0 && p.stages[old(len(p.stages))].CycleLeft == 0 && p.stages[old(len(p.stages))].Item == item
+//@   label C15.accept.lane
+//@   ensures 0 <= p.stages[old(len(p.stages))].Lane && p.stages[old(len(p.stages))].Lane < p.width
+//@   label C15.accept.lane.free
+//@   ensures forall i in 0..old(len(p.stages)) :: !(old(p.stages[i].Stage) == 0 && old(p.stages[i].Lane) == p.stages[old(len(p.stages))].Lane)
+//@   label C15.accept.lane.first
+//@   ensures forall k in 0..p.stages[old(len(p.stages))].Lane :: 0 <= own[k] && own[k] < old(len(p.stages)) && old(p.stages)[own[k]].Stage == 0 && old(p.stages)[own[k]].Lane == k
+//@   label C15.accept.wf
+//@   ensures pipeWF(p) && (old(dwellOK(p)) ==> dwellOK(p)) && p.width == old(p.width) && p.numStages == old(p.numStages)
+//@   assigns p.stages, elems(p.stages)
+//@   loop 0: ghost gown = idperm
+//@   loop 0: backedge gown = (p.stages[athead(rangeindex) + 1].Stage == 0 ? upd(gown, p.stages[athead(rangeindex) + 1].Lane, athead(rangeindex) + 1) : gown)
+//@   loop 0: invariant -1 <= rangeindex && rangeindex < len(p.stages) && len(used) == p.width
+//@   loop 0: invariant forall k in 0..rangeindex + 1 :: p.stages[k].Stage == 0 ==> used[p.stages[k].Lane]
+//@   loop 0: invariant forall l in 0..p.width :: used[l] ==> 0 <= gown[l] && gown[l] <= rangeindex && p.stages[gown[l]].Stage == 0 && p.stages[gown[l]].Lane == l
+//@   loop 1: invariant 0 <= lane && lane <= p.width
+//@   loop 1: invariant forall k in 0..lane :: idperm[k] == k ==> 0 <= gown[k] && gown[k] < len(p.stages) && p.stages[gown[k]].Stage == 0 && p.stages[gown[k]].Lane == k
+
+// AcceptWithDelay = Accept, then the new record's dwell counter is set to delay.
+//@ fn (*Pipeline[T]).AcceptWithDelay
+//@   property C15
+//@   requires pipeWF(p) && hasFreeLane(p) && delay >= 0
+//@   witness own map = Accept_own
+//@   label C15.acceptdelay.len
+//@   ensures len(p.stages) == old(len(p.stages)) + 1
+//@   label C15.acceptdelay.ref
+//@   ensures ref(p.stages) != 0 && (ref(p.stages) == old(ref(p.stages)) || fresh(p.stages))
+//@   label C15.acceptdelay.prefix
+//@   ensures forall i in 0..old(len(p.stages)) :: p.stages[i] == old(p.stages[i])
+//@   label C15.acceptdelay.record
+//@   ensures p.stages[old(len(p.stages))].Stage == 0 && p.stages[old(len(p.stages))].CycleLeft == delay && p.stages[old(len(p.stages))].Item == item
+//@   label C15.acceptdelay.lane
+//@   ensures 0 <= p.stages[old(len(p.stages))].Lane && p.stages[old(len(p.stages))].Lane < p.width
+//@   label C15.acceptdelay.lane.free
+//@   ensures forall i in 0..old(len(p.stages)) :: !(old(p.stages[i].Stage) == 0 && old(p.stages[i].Lane) == p.stages[old(len(p.stages))].Lane)
+//@   label C15.acceptdelay.lane.first
+//@   ensures forall k in 0..p.stages[old(len(p.stages))].Lane :: 0 <= own[k] && own[k] < old(len(p.stages)) && old(p.stages)[own[k]].Stage == 0 && old(p.stages)[own[k]].Lane == k
+//@   label C15.acceptdelay.wf
+//@   ensures pipeWF(p) && (old(dwellOK(p)) ==> dwellOK(p)) && p.width == old(p.width) && p.numStages == old(p.numStages)
+//@   assigns p.stages, elems(p.stages)
+
+//@ fn NewPipeline
+//@   property C15
+//@   label C15.new
+//@   ensures result.width == width && result.numStages == numStages && len(result.stages) == 0
+//@   label C15.new.wf
+//@   ensures 0 <= width && width <= 1<<30 && 1 <= numStages && numStages <= 1<<30 ==> pipeWF(result) && dwellOK(result)
+
+//@ fn (*Pipeline[T]).Clear
+//@   property C15
+//@   label C15.clear
+//@   ensures len(p.stages) == 0 && p.width == old(p.width) && p.numStages == old(p.numStages) && (old(pipeCfg(p)) ==> pipeWF(p) && dwellOK(p))
+//@   assigns p.stages
+
+//@ fn (*Pipeline[T]).Stages
+//@   property C15
+//@   label C15.stages.len
+//@   ensures len(result) == len(p.stages) && fresh(result)
+//@   label C15.stages.same
+//@   ensures forall i in 0..len(result) :: result[i] == p.stages[i]
+//@   assigns nothing
+
+// ---- nonlinear facts about the occupancy index (stage - base) * width + lane ----
+//@ lemma slotInj(w, a1, l1, a2, l2)
+//@   property C15
+//@   requires 0 <= l1 && l1 < w && 0 <= l2 && l2 < w && a1 * w + l1 == a2 * w + l2
+//@   label C15.lemma.slotinj
+//@   ensures a1 == a2 && l1 == l2
+
+// ---- advanceItems (phase 2 of Tick) ----
+// record j is exactly as it was on entry / has been processed by the stage scan
+//@ pred recSame(p, j) = p.stages[j].Stage == old(p.stages)[j].Stage && p.stages[j].CycleLeft == old(p.stages)[j].CycleLeft
+//@ pred recDone(p, j) = (old(p.stages)[j].CycleLeft > 0 ==> p.stages[j].Stage == old(p.stages)[j].Stage && p.stages[j].CycleLeft == old(p.stages)[j].CycleLeft - 1) && (old(p.stages)[j].CycleLeft == 0 ==> p.stages[j].CycleLeft == 0 && (p.stages[j].Stage == old(p.stages)[j].Stage || p.stages[j].Stage == old(p.stages)[j].Stage + 1))
+//@ pred advFrame(p) = len(p.stages) == old(len(p.stages)) && ref(p.stages) == old(ref(p.stages)) && off(p.stages) == old(off(p.stages))
+//@ func recSlotOld(p, j, base) = (old(p.stages)[j].Stage - base) * p.width + old(p.stages)[j].Lane
+// the occupancy table: (A) every record's slot is set; (B) a set slot k is held by the record that owned k on entry
+// (own0[k], it has not moved) or by the record that owned the slot one stage below (own0[k - width], it has moved up);
+// distinct records have distinct slots (the slot encoding is injective: lemma slotInj, instantiated on the entry state)
+//@ pred occA(p, occ, base) = forall j in 0..len(p.stages) :: occ[recSlot(p, j, base)]
+//@ pred occB(p, occ, own0, base) = forall k in 0..len(occ) :: occ[k] ==> (0 <= own0[k] && own0[k] < len(p.stages) && recSlotOld(p, own0[k], base) == k && recSlot(p, own0[k], base) == k) || (0 <= own0[k - p.width] && own0[k - p.width] < len(p.stages) && recSlotOld(p, own0[k - p.width], base) == k - p.width && recSlot(p, own0[k - p.width], base) == k)
+//@ pred ownF0(p, own0, base) = forall j in 0..len(p.stages) :: own0[recSlotOld(p, j, base)] == j
+//@ pred slotDistinct(p, base) = forall a in 0..len(p.stages) :: forall b in 0..len(p.stages) :: a != b ==> recSlot(p, a, base) != recSlot(p, b, base)
+//@ pred advRange(p, lo, hi) = forall j in 0..len(p.stages) :: lo <= old(p.stages)[j].Stage && (old(p.stages)[j].Stage <= hi || old(p.stages)[j].Stage == p.numStages - 1)
+//@ pred advHyp(p) = old(dwellOK(p)) && (forall j in 0..old(len(p.stages)) :: old(p.stages)[j].Stage < p.numStages - 1)
+// rows `stage` and `stage + 1` of the table are inside it
+//@ pred rowsIn(p, occ, stage, base) = 0 <= (stage - base) * p.width && (stage - base) * p.width + 2 * p.width <= len(occ)
+
+//@ fn (*Pipeline[T]).advanceItems
+//@   property C15
+//@   requires pipeWF(p) && len(p.stages) > 0
+//@   use forall a in 0..len(p.stages), b in 0..len(p.stages) :: slotInj(p.width, p.stages[a].Stage, p.stages[a].Lane, p.stages[b].Stage, p.stages[b].Lane)
+//@   use forall a in 0..len(p.stages), b in 0..len(p.stages) :: slotInj(p.width, p.stages[a].Stage - 1, p.stages[a].Lane, p.stages[b].Stage, p.stages[b].Lane)
+//@   label C15.adv.shape
+//@   ensures advFrame(p)
+//@   label C15.adv.last
+//@   ensures forall j in 0..len(p.stages) :: old(p.stages)[j].Stage == p.numStages - 1 ==> recSame(p, j)
+//@   label C15.adv.done
+//@   ensures forall j in 0..len(p.stages) :: old(p.stages)[j].Stage < p.numStages - 1 ==> recDone(p, j)
+//@   label C15.adv.wf
+//@   ensures pipeWF(p)
+//@   label C15.adv.progress
+//@   ensures advHyp(p) ==> (forall j in 0..len(p.stages) :: old(p.stages)[j].CycleLeft == 0 ==> p.stages[j].Stage == old(p.stages)[j].Stage + 1)
+//@   assigns elems(p.stages)
+//@   loop 0: invariant minStage - 1 <= stage && stage <= maxStage && maxStage <= lastStage - 1 && lastStage == p.numStages - 1 && occBase == minStage && 0 <= minStage && n == len(p.stages)
+//@   loop 0: invariant advFrame(p) && fresh(occ) && len(occ) == (maxStage - minStage + 3) * p.width && recsOK(p) && advRange(p, minStage, maxStage)
+//@   loop 0: invariant stage >= minStage ==> rowsIn(p, occ, stage, minStage)
+//@   loop 0: invariant slotDistinct(p, minStage)
+//@   loop 0: invariant occA(p, occ, minStage)
+//@   loop 0: invariant occB(p, occ, buildOccupancy_own, minStage)
+//@   loop 0: invariant ownF0(p, buildOccupancy_own, minStage)
+//@   loop 0: invariant forall j in 0..len(p.stages) :: old(p.stages)[j].Stage <= stage || old(p.stages)[j].Stage > maxStage ==> recSame(p, j)
+//@   loop 0: invariant forall j in 0..len(p.stages) :: stage < old(p.stages)[j].Stage && old(p.stages)[j].Stage <= maxStage ==> recDone(p, j)
+//@   loop 0: invariant advHyp(p) ==> (forall j in 0..len(p.stages) :: stage < old(p.stages)[j].Stage && old(p.stages)[j].CycleLeft == 0 ==> p.stages[j].Stage == old(p.stages)[j].Stage + 1)
+//@   loop 1: invariant minStage <= stage && stage <= maxStage && maxStage <= lastStage - 1 && lastStage == p.numStages - 1 && occBase == minStage && 0 <= minStage && n == len(p.stages) && 0 <= i && i <= n
+//@   loop 1: invariant advFrame(p) && fresh(occ) && len(occ) == (maxStage - minStage + 3) * p.width && recsOK(p) && advRange(p, minStage, maxStage)
+//@   loop 1: invariant rowsIn(p, occ, stage, minStage)
+//@   loop 1: invariant slotDistinct(p, minStage)
+//@   loop 1: invariant occA(p, occ, minStage)
+//@   loop 1: invariant occB(p, occ, buildOccupancy_own, minStage)
+//@   loop 1: invariant ownF0(p, buildOccupancy_own, minStage)
+//@   loop 1: invariant forall j in 0..len(p.stages) :: old(p.stages)[j].Stage < stage || (old(p.stages)[j].Stage == stage && j >= i) || old(p.stages)[j].Stage > maxStage ==> recSame(p, j)
+//@   loop 1: invariant forall j in 0..len(p.stages) :: (stage < old(p.stages)[j].Stage && old(p.stages)[j].Stage <= maxStage) || (old(p.stages)[j].Stage == stage && j < i) ==> recDone(p, j)
+//@   loop 1: invariant advHyp(p) ==> (forall j in 0..len(p.stages) :: (stage < old(p.stages)[j].Stage || (old(p.stages)[j].Stage == stage && j < i)) && old(p.stages)[j].CycleLeft == 0 ==> p.stages[j].Stage == old(p.stages)[j].Stage + 1)
